@@ -335,7 +335,7 @@ func checkC09(w *World, r *Report) {
 				r.Fail("R09.1", construct, a.Pos(), "sync.Map field %s.%s is used other than through its methods (%s)", ss.name, a.Field.Name(), a.Kind)
 			}
 		case row.kind == "atomic":
-			if a.Kind == "atomic" {
+			if a.Kind == "atomic" || (a.Kind == "method" && isSyncType(a.Field.Type())) {
 				r.OK("R09.1", construct, a.Pos(), false, "through sync/atomic")
 			} else if isFreshAccess(a) {
 				r.OK("R09.1", construct, a.Pos(), true, "object still private to its allocating function")
